@@ -1,12 +1,87 @@
-(* C04 -- what runs is the program that LIST shows (statements grow with Proofs/Dirty.v). *)
-From BL Require Import Base.Prelude Mach.Val Mach.Compile Mach.Listing Mach.Runtime.
+(* C04 -- what runs is always the program that LIST shows.
+   Statements only; the proofs are in Proofs/Dirty.v (a Hoare logic over the VM monad, Proofs/RMFrame.v).
+
+   The model mirrors the implementation's mechanism: a `dirty` flag raised by every edit and lowered only by
+   the recompilation at the start of the next direct line.  The theorems say that the mechanism is sound in
+   the model, for every state and every opcode, with no bound on the history:
+     (1) through execute(), through a numbered line, through INPUT / INKEY$ replies and through interrupt(),
+         the flag never falls, and the stored lines are unchanged unless the flag is up afterwards;
+     (2) statements other than DELETE, RENUM and NEW never alter the stored lines (nor the flag, nor the code);
+     (3) a direct line entered with the flag up is compiled behind a fresh compilation of exactly the stored
+         lines, and neither the old code, nor the value stack (pending RETURN / NEXT), nor the user functions,
+         nor the CONT state of the previous compilation can influence what happens next.
+   What is NOT proved here: that a compilation of the listing behaves like typing the listing into a fresh
+   interpreter (that is C01/C12 territory and is covered by the differential check of histories). *)
+From BL Require Import Base.Prelude Mach.Val Lang.Token Mach.Compile Mach.Listing Mach.Runtime Proofs.RMFrame Proofs.Dirty.
 Local Open Scope N_scope.
 
-(* typing a numbered line can only set the dirty flag, never clear it *)
+(* (1) execute(): any number of VM instructions, any state *)
+Theorem C04_dirty_tracks_execute : forall O r n r' e, rt_execute O r n = Ok (r', e) ->
+  (r_dirty r = true -> r_dirty r' = true) /\ (ls_lines (r_listing r') = ls_lines (r_listing r) \/ r_dirty r' = true).
+Proof. exact dirty_tracks_edits_execute. Qed.
+Print Assumptions C04_dirty_tracks_execute.
+
+(* (1) a numbered line: insert, replace, delete -- deleting a line that does not exist included *)
+Theorem C04_dirty_tracks_numbered_line : forall r l r', enter_indirect r l = Ok r' ->
+  (r_dirty r = true -> r_dirty r' = true) /\ (ls_lines (r_listing r') = ls_lines (r_listing r) \/ r_dirty r' = true).
+Proof. exact dirty_tracks_edits_indirect. Qed.
+Print Assumptions C04_dirty_tracks_numbered_line.
+
 Theorem C04_enter_indirect_keeps_dirty : forall r l r', enter_indirect r l = Ok r' -> r_dirty r = true -> r_dirty r' = true.
-Proof.
-  intros r l r' H Hd. unfold enter_indirect in H.
-  destruct (fst l) as [n |]; [| injection H as <-; exact Hd].
-  destruct (snd l); injection H as <-; cbn; [rewrite Hd; reflexivity | reflexivity].
-Qed.
+Proof. intros r l r' E. exact (proj1 (dirty_tracks_edits_indirect r l r' E)). Qed.
 Print Assumptions C04_enter_indirect_keeps_dirty.
+
+(* (1) replies to INPUT / INKEY$ and interrupts *)
+Theorem C04_reply_neutral : forall O r s,
+  Track (ls_lines (r_listing r)) (r_dirty r) (enter_input O r s) /\ Track (ls_lines (r_listing r)) (r_dirty r) (enter_inkey O r s).
+Proof. exact dirty_tracks_edits_reply. Qed.
+Print Assumptions C04_reply_neutral.
+
+Theorem C04_interrupt_neutral : forall r, r_dirty (rt_interrupt r) = r_dirty r /\ r_listing (rt_interrupt r) = r_listing r.
+Proof. exact dirty_tracks_edits_interrupt. Qed.
+Print Assumptions C04_interrupt_neutral.
+
+(* (2) one opcode, then a whole execute() call on code without editing opcodes *)
+Theorem C04_noedit_statement_frame : forall O h op r, is_edit_op op = false ->
+  let r' := fst (exec_op O h op r) in
+  ls_lines (r_listing r') = ls_lines (r_listing r) /\ r_dirty r' = r_dirty r.
+Proof. exact noedit_op_frame. Qed.
+Print Assumptions C04_noedit_statement_frame.
+
+Theorem C04_noedit_program_frame : forall O r n r' e,
+  forallb not_edit (l_ops (pg_link (r_prog r))) = true ->
+  rt_execute O r n = Ok (r', e) ->
+  ls_lines (r_listing r') = ls_lines (r_listing r) /\ r_dirty r' = r_dirty r
+  /\ l_ops (pg_link (r_prog r')) = l_ops (pg_link (r_prog r)).
+Proof. exact noedit_execute_frame. Qed.
+Print Assumptions C04_noedit_program_frame.
+
+(* (3) the direct line *)
+Theorem C04_direct_keeps_lines : forall r l,
+  ls_lines (r_listing (enter_direct r l)) = ls_lines (r_listing r) /\ r_dirty (enter_direct r l) = false.
+Proof. exact direct_keeps_lines. Qed.
+Print Assumptions C04_direct_keeps_lines.
+
+Theorem C04_recompiled_from_listing : forall r l, r_dirty r = true ->
+  enter_direct r l =
+  enter_direct (set_cont (set_fns (set_stack_len (set_dirty (set_prog r (compile_listing (r_prog r) (ls_lines (r_listing r)))) false) [] 0) []) StStopped) l.
+Proof. exact recompiled_from_listing. Qed.
+Print Assumptions C04_recompiled_from_listing.
+
+Theorem C04_stale_code_discarded : forall r l p1, r_dirty r = true -> program_clear p1 = program_clear (r_prog r) ->
+  enter_direct (set_prog r p1) l = enter_direct r l.
+Proof. exact stale_code_discarded. Qed.
+Print Assumptions C04_stale_code_discarded.
+
+Theorem C04_stale_state_discarded : forall r l st sl fns c, r_dirty r = true ->
+  enter_direct (set_cont (set_fns (set_stack_len r st sl) fns) c) l = enter_direct r l.
+Proof. exact stale_state_discarded. Qed.
+Print Assumptions C04_stale_state_discarded.
+
+(* non-vacuity: a clean runtime in which a present line is deleted (flag goes up) and an absent one is "deleted" (nothing changes) *)
+Example C04_witness :
+  let r := set_listing rt_default (mkListing [(10, [TWord WEnd])] [] []) in
+  r_dirty r = false
+  /\ (forall r', enter_indirect r (Some 10, []) = Ok r' -> r_dirty r' = true /\ ls_lines (r_listing r') = [])
+  /\ (forall r', enter_indirect r (Some 20, []) = Ok r' -> r_dirty r' = false /\ ls_lines (r_listing r') = ls_lines (r_listing r)).
+Proof. cbn. repeat split; intros; match goal with H : Ok _ = Ok _ |- _ => injection H as <- end; reflexivity. Qed.
